@@ -36,6 +36,26 @@ private:
     int m_value;
 };
 
+// one class template, two instantiations: same short name, different types
+int holder_born(const void *p, int v, const char *kind);
+void holder_died(int id, int v, bool ok, const char *kind);
+void holder_value(int id, int v);
+template<typename T> struct HolderTag;
+template<> struct HolderTag<int> { static unsigned tag() { return 0x11u; } static const char *kind() { return "hold_i"; } };
+template<> struct HolderTag<double> { static unsigned tag() { return 0x22u; } static const char *kind() { return "hold_d"; } };
+template<typename T> class Holder {
+public:
+    Holder(int v) : m_tag(HolderTag<T>::tag()), m_v(v) { m_pad[0] = static_cast<T>(v); m_id = holder_born(this, v, HolderTag<T>::kind()); }
+    ~Holder() { holder_died(m_id, m_v, m_tag == HolderTag<T>::tag(), HolderTag<T>::kind()); m_tag = 0xDEADu; }
+    T get() const { return static_cast<T>(m_v); }
+    void put(T v) { m_v = static_cast<int>(v); holder_value(m_id, m_v); }
+private:
+    unsigned m_tag;
+    int m_id;
+    int m_v;
+    T m_pad[3];
+};
+
 Item *makeItem(int v);
 Item *borrowItem();
 Item *defaultItem();
@@ -77,6 +97,7 @@ double *arrNewAlloc(int n, int *len);
 int *arrNewPat(int n, int *len);
 int arrSum(const int *arr, int n);
 void arrFillOut(int n, double *out);
+void arrWeights(int *values, int nvalues, const int *weights, int nweights);
 void charGrow(char *s);
 int charArrLen(char **names, int n);
 Item &refItem();
